@@ -1,6 +1,7 @@
 package main
 
 import (
+	"bytes"
 	"crypto/sha256"
 	"encoding/hex"
 	"encoding/json"
@@ -34,7 +35,10 @@ type parseReply struct {
 	Plain     parseOut `json:"plain"`
 	Chunked   parseOut `json:"chunked"`
 	Offset    parseOut `json:"offset"`
-	Fault     parseOut `json:"fault"` // the first delivery mode of the fault that did not yield an error (or the last one)
+	StdAt     parseOut `json:"stdAt"` // a strings.Reader / bytes.Reader handed over at a position (the end included)
+	StdPos    int      `json:"stdPos"`
+	NoSeek    parseOut `json:"noSeek"` // a reader whose Seek fails: an error, whatever the error says
+	Fault     parseOut `json:"fault"`  // the first delivery mode of the fault that did not yield an error (or the last one)
 	FaultMode int      `json:"faultMode"`
 	FaultAt   int      `json:"faultAt"`
 	Plan      []int    `json:"plan"`
@@ -127,6 +131,14 @@ type planReader struct {
 	mode   int
 	failed bool
 }
+
+// noSeekReader: every Seek fails
+type noSeekReader struct {
+	planReader
+	err error
+}
+
+func (r *noSeekReader) Seek(int64, int) (int64, error) { return 0, r.err }
 
 var errInjected = errors.New("injected read fault")
 var errEscapeText = errors.New("invalid char escape")
@@ -271,6 +283,30 @@ func parseJob(payload string) string {
 			r.pos = 1 + rng.Intn(len(data))
 		}
 		return mpath.ParseReadSeeker(r)
+	})
+	for _, pos := range []int{len(data), rng.Intn(len(data) + 1), 0} {
+		pos := pos
+		rep.StdPos = pos
+		rep.StdAt = safeParse(func() (mpath.Operation, error) {
+			if rng.Intn(2) == 0 {
+				sr := strings.NewReader(string(data))
+				sr.Seek(int64(pos), io.SeekStart)
+				return mpath.ParseReadSeeker(sr)
+			}
+			br := bytes.NewReader(data)
+			br.Seek(int64(pos), io.SeekStart)
+			return mpath.ParseReadSeeker(br)
+		})
+		if rep.StdAt.Class != rep.Plain.Class || rep.StdAt.Sprint != rep.Plain.Sprint {
+			break
+		}
+	}
+	rep.NoSeek = safeParse(func() (mpath.Operation, error) {
+		pos := 0
+		if len(data) > 0 {
+			pos = rng.Intn(len(data) + 1)
+		}
+		return mpath.ParseReadSeeker(&noSeekReader{planReader{data: data, pos: pos, failAt: -1}, []error{errors.New("seek failed"), fmt.Errorf("cannot rewind: %w", errors.ErrUnsupported), io.ErrClosedPipe}[rng.Intn(3)]})
 	})
 	rep.FaultAt = faultAt
 	if faultAt >= 0 {
